@@ -18,10 +18,10 @@ def run(tier):
     osets = e2e.OPTION_SETS_QUICK
     runs = e2e.run_optimize(blocks, osets, assign="rotate" if tier == "quick" else "all")
     # systematic streams: the neighbourhood of the rewrite rules and constant folding on boundary operands
-    rc, fc = gen.rule_corpus(), gen.fold_corpus()
+    rc, fc, mc = gen.rule_corpus(), gen.fold_corpus(), gen.mem_pair_corpus()
     if tier == "quick":
-        rc, fc = rng.sample(rc, 250), rng.sample(fc, 300)
-    runs += e2e.run_optimize(rc + fc, [["-greedy"]] if tier == "quick" else [["-greedy"], ["-greedy", "-size"]], assign="all")
+        rc, fc, mc = rng.sample(rc, 250), rng.sample(fc, 300), rng.sample(mc, 300)
+    runs += e2e.run_optimize(rc + fc + mc, [["-greedy"]] if tier == "quick" else [["-greedy"], ["-greedy", "-size"]], assign="all")
     c = Counter()
     pairs = []
     lens = Counter()
